@@ -28,6 +28,12 @@ class ColumnVal:
         self.table, self.col = table, col
 
 
+class FrameVal:
+    """pd.DataFrame(dict of columns): only kept so that what is written by to_csv can be inspected."""
+    def __init__(self, data):
+        self.data = data
+
+
 class MaskVal:
     def __init__(self, table, pred):
         self.table, self.pred = table, pred  # pred(row dict) -> bool | Sym
@@ -46,6 +52,11 @@ def install(I):
             if name in ("copy", "reset_index", "dropna"):
                 return N(lambda ctx, *a, **k: obj)
             return ColumnVal(obj, name)
+        if isinstance(obj, FrameVal):
+            if name == "to_csv":
+                def to_csv(ctx, path=None, *a, **k):
+                    I.csv_written.append((path, obj.data))
+                return N(to_csv)
         if isinstance(obj, ColumnVal):
             if name == "isin":
                 def isin(ctx, values):
@@ -83,6 +94,7 @@ def install(I):
     I.pd_getitem = lambda obj, key: getitem(I, obj, key)
     I.pd_compare = lambda op, a, b: compare(I, op, a, b)
     I.pd_types = (MapVal, TableVal, ColumnVal, MaskVal)
+    I.csv_written = []
 
 
 def getitem(I, obj, key):
